@@ -226,7 +226,10 @@ impl<'req, B: FromBody<'req>> FromRequest<'req> for B {
             Response::BadRequest().with_text(msg.to_string())
         }
 
-        if req.headers.ContentType()?.starts_with(B::MIME_TYPE) {
+        /* the media type must end where `MIME_TYPE` ends: at the end of the value or before its `;` parameters */
+        if req.headers.ContentType()?.strip_prefix(B::MIME_TYPE)
+            .is_some_and(|rest| rest.trim_start().is_empty() || rest.trim_start().starts_with(';'))
+        {
             Some(B::from_body(req.payload()?).map_err(reject))
         } else {
             None
